@@ -13,5 +13,9 @@ from mirsym import harness as H
 H.get_program()
 print('replay binary:', H.build_replay('release'))
 print(H.replay_lines(['unop\thalf\t7:1']))
+try:
+    print('serde replay:', H.replay_lines(['serde\tstring\t123:2'], cfg_env={'VERIF_REPLAY_FEATURES': 'serde'}))
+except Exception as e:      # only needed to confirm C17 counterexamples
+    print('serde replay binary not built:', e)
 PY
 echo "setup ok"
